@@ -284,6 +284,10 @@ fn rejection_block() -> &'static Vec<(Ev, String)> {
                 all.push(format!("{}*2", f));
                 all.push(format!("abs({})", f));
                 all.push(format!("pow(2,{})", f));
+                if ev != Ev::Cpx {
+                    all.push(format!("max(1,{})", f));
+                    all.push(format!("med(1,{},3)", f));
+                }
                 all.push(format!("-{}", f));
             }
             for s in all {
